@@ -6,7 +6,7 @@ import os
 VERIF = os.path.dirname(os.path.dirname(os.path.abspath(__file__)))
 
 CHECKS = {
- "C01": ("Theorem over the Coq model (delivery = fold of the conforming frame list) + model/implementation correspondence on generated and exhaustively enumerated conforming streams through the real session loop; aliasing of the receive buffer is decided on the implementation side only.",
+ "C01": ("Theorems over the Coq model (every conforming frame stream, any length form, any read boundaries, through feed, the event loop and the whole run from connect(): the message events are exactly the reference reading's) + model/implementation correspondence on generated and exhaustively enumerated conforming streams through the real session loop; aliasing of the receive buffer is decided on the implementation side only.",
          "Coq proof about the executable model; tie = extracted model diffed against the real client under a simulated socket; independent expected-events oracle"),
  "C02": ("Segmentation lemma proved for the generic coroutine parser and lifted through the connection model for all chunkings; metamorphic + differential runs of the real client on all cut sets of short streams and many cut sets of long ones.",
          "Coq proof (pull_split / drive_split) + metamorphic differential testing of the tie"),
@@ -89,7 +89,7 @@ def main():
         "engines": [{"name": "coq-model", "path": "/verif/coq", "serves_properties": sorted(CHECKS),
                      "kind_free_text": "Coq 8.16.1 development: executable Gallina model of lomond (model/), lemma libraries (proofs/), property theorems (props/), tables regenerated from the live code (gen/), extraction to OCaml (extract/); Python harness in /verif/harness runs the real client against it"}],
         "checks": checks,
-        "notes": "See DESIGN.md. Six genuine defects were repaired by fix: commits in /repo and one is listed as a known finding (known_findings.json).",
+        "notes": "See DESIGN.md. Seven genuine defects were repaired by fix: commits in /repo and one is listed as a known finding (known_findings.json). DESIGN.md section 11 describes what was built.",
         "not_applicable": na,
     }
     with open(os.path.join(VERIF, "MANIFEST.json"), "w") as f:
